@@ -24,6 +24,9 @@ from .version import DEFAULT_VERSION
 ID_REGEX_interoperability = re.compile(
     r"[0-9a-fA-F]{8}-[0-9a-fA-F]{4}-[0-9a-fA-F]{4}-[0-9a-fA-F]{4}-[0-9a-fA-F]{12}$",
 )
+UUID_REGEX = re.compile(
+    r"^[0-9a-fA-F]{8}-[0-9a-fA-F]{4}-[0-9a-fA-F]{4}-[0-9a-fA-F]{4}-[0-9a-fA-F]{12}\Z",
+)
 TYPE_REGEX = re.compile(r'^-?[a-z0-9]+(-[a-z0-9]+)*-?$')
 TYPE_21_REGEX = re.compile(r'^([a-z][a-z0-9]*)+([a-z0-9-]+)*-?$')
 ERROR_INVALID_ID = (
@@ -44,6 +47,11 @@ def _check_uuid(uuid_str, spec_version, interoperability):
     """
     if interoperability:
         return ID_REGEX_interoperability.match(uuid_str)
+
+    # uuid.UUID() also accepts URN-prefixed, braced, dash-less etc. forms,
+    # which are not valid in STIX identifiers.
+    if not UUID_REGEX.match(uuid_str):
+        raise ValueError("not in canonical UUID textual form")
 
     uuid_obj = uuid.UUID(uuid_str)
 
